@@ -435,6 +435,10 @@ class TorchBackend:
             try:
                 arr = self._backend.asarray(a)
                 if axis is None:
+                    # numpy's ufunc.reduce folds along the first axis; torch.sum/torch.prod
+                    # without dim fold every element (+/[[1 2] [3 4]] was 10 instead of [4 6])
+                    if arr.ndim > 1 and (self._reduce_op is torch.sum or self._reduce_op is torch.prod):
+                        return self._reduce_op(arr, dim=0)
                     return self._reduce_op(arr)
                 return self._reduce_op(arr, dim=axis)
             except TorchUnsupportedDtypeError:
